@@ -700,8 +700,9 @@ class Triangle(Polygon, Simplex):
         lambda2 = det(np.stack([a, p, c], axis=-2))
         lambda3 = det(np.stack([a, b, p], axis=-2))
 
-        # all barycentric coordinates have the sign of the orientation of the triangle or are zero (up to rounding)
-        tol = EQ_TOL_ABS
+        # all barycentric coordinates have the sign of the orientation of the triangle or are zero (up to rounding);
+        # the determinants scale with the area of the triangle, so the tolerance does too for large triangles
+        tol = EQ_TOL_ABS * np.maximum(1, np.abs(lambda1 + lambda2 + lambda3))
         inside_ccw = (lambda1 >= -tol) & (lambda2 >= -tol) & (lambda3 >= -tol)
         inside_cw = (lambda1 <= tol) & (lambda2 <= tol) & (lambda3 <= tol)
         return inside_ccw | inside_cw
